@@ -232,6 +232,8 @@ inline TableD gen_table(vp::Rng &r, const FamilyOpts &o = FamilyOpts()) {
             case rm::C_CB: { uint64_t d = gen_finite(r, type); for (int k = 0; k < 64 && !(rm::cb_pred(reg.cb, type, d) && rm::float_ok(type, d)); k++) d = gen_finite(r, type); if (!(rm::cb_pred(reg.cb, type, d) && rm::float_ok(type, d))) d = 0; reg.def = d; break; }
             default: reg.def = gen_finite(r, type); break;
             }
+            // a range with descending limits admits nothing; a table holding one is well-formed as long as the default is never loaded
+            if (reg.ckind == rm::C_RANGE && !a.loads_defaults() && rm::cmp(type, reg.lo, reg.hi) < 0 && r.chance(1, 3)) std::swap(reg.lo, reg.hi);
             t.regs.push_back(reg);
             pos = reg.end();
         }
